@@ -117,6 +117,13 @@ func (f *decompressor) step() (err error) {
 		return io.EOF
 	}
 
+	if state.phase == phaseStreamEnd && state.input == nil {
+		// the whole stream has been decoded and delivered, and the input up to
+		// its end has been given back: do not ask the source for more
+		state.phase = phaseFinish
+		return io.EOF
+	}
+
 	if state.input == nil {
 		// Wait for one byte more than the bit buffer already holds, then take
 		// whatever has arrived: decoding must not wait for a full buffer.
